@@ -85,7 +85,7 @@ class Report:
         d = REPLAY_DIR / self.prop
         d.mkdir(exist_ok=True)
         path = d / f"{digest(case)}.json"
-        if len(self.violations) < 200:
+        if len(self.violations) < int(os.environ.get("VERIF_MAX_REPLAYS", "200")):
             try:
                 path.write_text(json.dumps({"property": self.prop, "what": what, "case": case,
                                             "tier": self.tier, "seed": self.seed}, indent=1, default=str))
